@@ -169,7 +169,8 @@ def wirings(draw, max_procs=3, features=('dotdot', 'split', 'leaf', 'glob',
                                         min_size=1, max_size=2, unique=True))
                 sub = {v: {'_default': 0} for v in subvars}
                 subtopo = {}
-                if has_inner and background and draw(st.booleans()):
+                if has_inner and (background or 'subtopo_initial' in features) \
+                        and draw(st.booleans()):
                     sub['zz'] = {'_default': 0}
                     subtopo['zz'] = ['inner', 'z']
                 schema[port] = {'*': sub}
